@@ -22,3 +22,20 @@ Theorem C07_earliest_fit : forall p t f e,
          book_team p stx t x (t_team (task_of p t)) = None).
 Proof. exact earliest_fit. Qed.
 Print Assumptions C07_earliest_fit.
+
+(* ---- the order of service: the work list holds exactly the leaf tasks, each once, sorted by priority and - among
+   equal priorities - by declaration order; a step of the main loop takes the FIRST task of that list whose
+   predecessors are all placed (everything before it in the list is not ready) and leaves the order of the rest *)
+From Coq Require Import Sorted.
+Require Import SP.Proofs.SchedOrder.
+Theorem C07_work_list_order : forall p,
+  StronglySorted (before p) (sorted_leaves p) /\ NoDup (sorted_leaves p) /\
+  forall t, In t (sorted_leaves p) <-> t < length (p_tasks p) /\ t_leaf (task_of p t) = true.
+Proof. exact sorted_leaves_spec. Qed.
+Print Assumptions C07_work_list_order.
+
+Theorem C07_first_ready : forall p st work t rest, pick p st work = Some (t, rest) ->
+  exists pre post, work = pre ++ t :: post /\ rest = pre ++ post /\ ready p st t = true /\
+                   forall u, In u pre -> ready p st u = false.
+Proof. exact pick_first_ready. Qed.
+Print Assumptions C07_first_ready.
